@@ -131,8 +131,10 @@ def get_type_graph(t: type) -> graphlib.TopologicalSorter[TypeNode]:
                 continue
             # String annotations taken from a signature arrive as references: they are
             #   members like any other, not cycles.
-            if isinstance(child, refs.ForwardRef):
-                child = refs.evaluate(child)
+            #   (A builtin generic keeps its string arguments as they are: `list["Node"]`.)
+            if isinstance(child, (str, refs.ForwardRef)):
+                ref = refs.forwardref(child) if isinstance(child, str) else child
+                child = refs.evaluate(ref)
 
             unwrapped = inspection.unwrap(child)
             # Only subscripted generics or non-stdlib types can be cyclic.
